@@ -3,7 +3,9 @@
 (* Leg C for C37 (case trace).  One line per executed case:                *)
 (*   in.series[i]      raw counter series [ts, vs, ks] (offsets from an    *)
 (*                     hour-aligned base, integer values, kind tokens)     *)
-(*   in.mode, nc1, nc2 "loop": the two batching loops with given chunk     *)
+(*   in.mode, nc1, nc2 "chunks": many 5 m chunks (one per segment of       *)
+(*                     in.sizes samples) re-aggregated with nc2;           *)
+(*                     "loop": the two batching loops with given chunk     *)
 (*                     counts; "block": downsample.Downsample on real      *)
 (*                     blocks, raw -> 5 m -> 1 h                           *)
 (*   in.seek           -1, or the offset the iterator was first sought to  *)
@@ -30,6 +32,10 @@ SeriesClauses(raw, o, seek) ==
     \* non-vacuity: a counter with data yields data (only judged for full reads)
     \cup (IF seek = -1 /\ ~(EmittedNonEmpty(raw, o.em1) /\ EmittedNonEmpty(raw, o.em2))
             THEN {"counter-with-data-yields-data"} ELSE {})
+    \* title: the raw counter's increase is preserved -- a full read ends on the fully adjusted
+    \* last raw value (a downsampled series that stops early loses part of the increase)
+    \cup (IF IncreasePreserved(raw, o.em1) /\ IncreasePreserved(raw, o.em2)
+            THEN {} ELSE {"raw-increase-preserved"})
 
 Judge(e) ==
     IF e.got.kind # "ok" THEN {"downsampling-succeeds"}
